@@ -60,6 +60,7 @@ fn main() {
         "C10" => dgh::c10::run(&tier, seed),
         "C09" => dgh::c09::run_c09(&tier, seed),
         "C11" => dgh::c09::run_c11(&tier, seed),
+        "C12" => dgh::c12::run(&tier, seed),
         _ => {
           eprintln!("unknown property {}", prop);
           std::process::exit(2)
